@@ -12,10 +12,17 @@
 //! * `Unwinding`: the case runs inside a destructor while its thread unwinds
 //!   from an unrelated panic (`std::thread::panicking()` is true), the
 //!   situation of a `Drop` implementation that sends StopCCN / CDN.
+//! * `Inside`: the case runs in the middle of another library call on the
+//!   same thread — from inside the `at`-th method call that an encode in
+//!   progress makes on the caller's `Writer`, or that a decode in progress
+//!   makes on the caller's `Reader` (a writer that logs through the library,
+//!   a reader that decodes a look-ahead copy). Whatever the outer call holds
+//!   at that moment (a lock, a borrowed cell, a lease on a shared buffer)
+//!   must not reach the nested one.
 
 use crate::core::{guard, Failure};
 use crate::rng::Rng;
-use crate::seams::{SimWriter, WriterCfg};
+use crate::seams::{Monitor, SimSlice, SimWriter, WriterCfg};
 use rl2tp::avp::types;
 use rl2tp::avp::AVP;
 use rl2tp::common::{SliceReader, VecWriter};
@@ -73,8 +80,23 @@ pub enum Warm {
     Nothing,
 }
 
+/// The library call in progress around an `Inside` case.
+#[derive(Clone, Copy, Debug, PartialEq, Eq, Serialize, Deserialize)]
+pub enum Outer {
+    /// `Message::write` of a control message with three AVPs
+    EncodeControl,
+    /// `AVP::write` of a Host Name
+    EncodeAvp,
+    /// `Message::try_read` of that control message
+    DecodeControl,
+    /// `AVP::try_read_greedy` over its AVPs
+    Greedy,
+}
+
 #[derive(Clone, Debug, PartialEq, Eq, Serialize, Deserialize)]
 pub enum Env {
+    /// from inside the `at`-th call that `outer` makes on its writer / reader
+    Inside { outer: Outer, at: u8 },
     /// a successful operation, then the thread is idle for `secs` seconds of
     /// SIMULATED time (the process's clock jumps forward), then the case
     AfterIdle { warm: Warm, secs: u32 },
@@ -95,6 +117,10 @@ impl Env {
             ),
             Env::AfterMany { op, count } => format!("after {count} repetitions of {op:?} on the same thread"),
             Env::AfterIdle { warm, secs } => format!("after {warm:?} and then {secs} s without any call (simulated clock jump)"),
+            Env::Inside { outer, at } => format!(
+                "from inside call #{at} that a {outer:?} in progress on the same thread makes on the caller's {}",
+                if matches!(outer, Outer::EncodeControl | Outer::EncodeAvp) { "Writer" } else { "Reader" }
+            ),
         }
     }
 }
@@ -326,6 +352,73 @@ pub fn in_env<R>(env: Option<&Env>, f: impl FnOnce() -> R) -> R {
             clock_jump(*secs as u64 * 1_000_000_000);
             f()
         }
+        Some(Env::Inside { outer, at }) => inside(*outer, *at, f),
+    }
+}
+
+/// Run `f` from inside the `at`-th seam call of an `outer` library call in
+/// progress on this thread (after it, when the outer call makes fewer calls
+/// or refuses). A panic escaping `f` is carried out of the outer call and
+/// resumed afterwards; what the outer call returns is of no interest.
+pub fn inside<R>(outer: Outer, at: u8, f: impl FnOnce() -> R) -> R {
+    let mut out: Option<std::thread::Result<R>> = None;
+    let mut fopt = Some(f);
+    {
+        let slot = &mut out;
+        let fo = &mut fopt;
+        let cb: Box<dyn FnMut() + '_> = Box::new(move || {
+            if let Some(f) = fo.take() {
+                *slot = Some(std::panic::catch_unwind(std::panic::AssertUnwindSafe(f)));
+            }
+        });
+        // SAFETY: the seams want a 'static callback; this one is dropped
+        // (with the writer / monitor that holds it) before the block ends,
+        // while `out` and `fopt` are still alive.
+        let mut cb: Box<dyn FnMut() + 'static> = unsafe { std::mem::transmute(cb) };
+        let bytes = guard(|| {
+            let mut w = VecWriter::new();
+            control(ordinary_avps(3)).write(&mut w);
+            w.data
+        })
+        .unwrap_or_else(|_| vec![0x13, 0x20, 0, 20, 0, 7, 0, 0, 0, 1, 0, 2, 1, 8, 0, 0, 0, 0, 0, 1]);
+        match outer {
+            Outer::EncodeControl | Outer::EncodeAvp => {
+                let mut w = SimWriter::new(&WriterCfg::Vec, &[]);
+                w.reentry = Some((at as u64, cb));
+                w.begin_value();
+                let _ = guard(std::panic::AssertUnwindSafe(|| {
+                    if outer == Outer::EncodeControl {
+                        control(ordinary_avps(3)).write(&mut w)
+                    } else {
+                        host_name(12).write(&mut w)
+                    }
+                }));
+                w.reentry = None;
+            }
+            Outer::DecodeControl | Outer::Greedy => {
+                let mon = Monitor::new(0, false);
+                mon.borrow_mut().reentry = Some((at as u64, Box::new(move || cb())));
+                let m2 = mon.clone();
+                let _ = guard(move || {
+                    if outer == Outer::DecodeControl {
+                        let mut r = SimSlice::new(&bytes, m2);
+                        let _ = Message::<&[u8]>::try_read(&mut r);
+                    } else {
+                        let mut r = SimSlice::new(&bytes[12.min(bytes.len())..], m2);
+                        let _ = AVP::try_read_greedy::<&[u8]>(&mut r);
+                    }
+                });
+                mon.borrow_mut().reentry = None;
+            }
+        }
+    }
+    match out {
+        Some(Ok(r)) => r,
+        Some(Err(p)) => std::panic::resume_unwind(p),
+        None => match fopt.take() {
+            Some(f) => f(),
+            None => unreachable!("the callback ran without leaving a result"),
+        },
     }
 }
 
@@ -407,6 +500,12 @@ pub fn draw_env(rng: &mut Rng) -> Env {
         // a second, the usual timeouts, a day, a month, 2^32 ms
         let secs = *rng.pick(&[1u32, 5, 6, 30, 60, 61, 300, 3600, 86_400, 2_592_000, 4_294_968]);
         return Env::AfterIdle { warm, secs };
+    }
+    if rng.chance(1, 6) {
+        let outer = *rng.pick(&[Outer::EncodeControl, Outer::EncodeControl, Outer::EncodeAvp, Outer::DecodeControl, Outer::DecodeControl, Outer::Greedy]);
+        // low call numbers mostly: headers are written and read first
+        let at = if rng.chance(2, 3) { rng.range(1, 8) } else { rng.range(1, 30) } as u8;
+        return Env::Inside { outer, at };
     }
     match rng.below(40) {
         0..=23 => Env::After(draw_poison(rng)),
